@@ -285,7 +285,91 @@ func Check16(c Case16, r *core.Rec) {
 		check16SkipEquals(c, r)
 	case "special-scheme-effect":
 		check16SpecialSchemeEffect(c, r)
+	case "canon-combo":
+		check16CanonCombo(c, r)
 	}
+}
+
+// check16CanonCombo: any subset of remove-user-info / remove-port / remove-fragment / sort-query /
+// default-scheme together. Expected: the default parser's result (with the default-scheme rule), the
+// real setters applied for the remove-* options, and for sort-query the sorted decoded list with
+// everything else untouched.
+func check16CanonCombo(c Case16, r *core.Rec) {
+	p := canonicalizer.New(buildOptions(c.Opts)...)
+	got := parse16(p, c)
+	if got.err == nil && got.u == nil {
+		r.Failf("%s: returned (nil, nil)", where16(c))
+		return
+	}
+	scheme, mode := "", 0
+	for _, o := range c.Opts {
+		switch o.Name {
+		case "default-scheme":
+			scheme = o.Str
+		case "sort-query":
+			mode = o.Sort
+		}
+	}
+	want := parse16(DefaultParser, c)
+	if !want.ok() && !c.HasBase && scheme != "" {
+		var tr spec.Trace
+		if _, mok := Model.ParseT(string(c.Input), nil, &tr); !mok && tr.NoSchemeFailure() {
+			u, err := url.Parse(scheme + "://" + string(c.Input))
+			want = parsed{u, err}
+			r.Class("combo:default-scheme-applied")
+		}
+	}
+	if got.ok() != want.ok() {
+		r.Failf("%s: profile ok=%v (%v), expected ok=%v (%v)", where16(c), got.ok(), got.err, want.ok(), want.err)
+		return
+	}
+	if !want.ok() {
+		r.Vacuous()
+		return
+	}
+	if hasOpt(c.Opts, "remove-port") {
+		want.u.SetPort("")
+	}
+	if hasOpt(c.Opts, "remove-user-info") {
+		want.u.SetUsername("")
+		want.u.SetPassword("")
+	}
+	if hasOpt(c.Opts, "remove-fragment") {
+		want.u.SetHash("")
+	}
+	if len(c.Opts) >= 2 {
+		r.NT()
+	}
+	g, w := ObsOf(got.u), ObsOf(want.u)
+	if mode == 0 {
+		if g != w {
+			r.Failf("%s: differs from the default parser's result with the setters applied: %s", where16(c), DiffObs(g, w))
+		}
+		return
+	}
+	for _, i := range []int{1, 2, 3, 4, 5, 6, 7, 9} {
+		if g[i] != w[i] {
+			r.Failf("%s: %s is %q, expected %q", where16(c), obsName(i), g[i], w[i])
+			return
+		}
+	}
+	before := collapseList(spec.ParseURLEncoded(want.u.Query()))
+	if sortAmbiguous(before) || !validUTF8List(before) {
+		return
+	}
+	sorted := before.apply(SPOp{Op: "sort"})
+	if mode == 2 {
+		sorted = before.apply(SPOp{Op: "sortabs"})
+	}
+	after := spec.ParseURLEncoded(got.u.Query())
+	if pairsEqual(after, sorted, true) {
+		return
+	}
+	if hasCodecDelimiter(sorted) && got.u.Query() == treeSerialize(sorted) {
+		r.Known("KF-C16-serializer", "%s: the sorted list %s is serialized as %s, which decodes as %s", where16(c), pairsString(sorted), quote(got.u.Query()), pairsString(after))
+		return
+	}
+	r.Failf("%s: the decoded parameters are %s, expected %s", where16(c), pairsString(after), pairsString(sorted))
 }
 
 func where16(c Case16) string {
@@ -775,7 +859,7 @@ var c16SortQueries = []string{"?b=2&a=1", "?a=2&a=1&b=0", "?c&b&a", "?a=1&A=2&a=
 
 func Gen16(t *rapid.T) Case16 {
 	var c Case16
-	clauses := []string{"neutral", "neutral", "neutral", "remove", "remove", "sort", "default-scheme", "no-options", "collapse-effect", "encode-set-effect", "skip-equals", "special-scheme-effect"}
+	clauses := []string{"neutral", "neutral", "neutral", "remove", "remove", "sort", "default-scheme", "no-options", "collapse-effect", "encode-set-effect", "skip-equals", "special-scheme-effect", "canon-combo", "canon-combo"}
 	c.Clause = gen.Pick(t, "clause", clauses)
 	switch c.Clause {
 	case "no-options":
@@ -795,6 +879,26 @@ func Gen16(t *rapid.T) Case16 {
 		}
 		if len(c.Opts) == 0 {
 			c.Opts = append(c.Opts, Opt16{Name: "remove-fragment"})
+		}
+	case "canon-combo":
+		switch rapid.IntRange(0, 3).Draw(t, "comboInput") {
+		case 0:
+			c.Input = B(gen.Pick(t, "rich", []string{"http://u:p@h:81/p?b=2&a=1#f", "foo://u@h:1/p?z&y#f", "a:b  ?b&a#f", "ws://:p@h:80/?c=3&a=1&b=2#", "www.example.com:81/p?b&a#f", "u:p@h/p?q#f", "h:80/x?b=1&a=2", "example.com", "//h/p", "http://h/?a=1&A=2&a=0#"}))
+		case 1:
+			c.Input = B("http://u:p@h:81/p?" + genQuery(t) + "#f")
+		default:
+			genInput16(t, &c)
+		}
+		for _, n := range []string{"remove-user-info", "remove-port", "remove-fragment"} {
+			if rapid.IntRange(0, 1).Draw(t, n) == 1 {
+				c.Opts = append(c.Opts, Opt16{Name: n})
+			}
+		}
+		if rapid.IntRange(0, 1).Draw(t, "withsort") == 1 {
+			c.Opts = append(c.Opts, Opt16{Name: "sort-query", Sort: rapid.IntRange(0, 2).Draw(t, "sortmode")})
+		}
+		if !c.HasBase && rapid.IntRange(0, 1).Draw(t, "withdefscheme") == 1 {
+			c.Opts = append(c.Opts, Opt16{Name: "default-scheme", Str: gen.Pick(t, "defscheme", []string{"http", "https", "foo", "ws"})})
 		}
 	case "sort":
 		genInput16(t, &c)
@@ -887,7 +991,7 @@ func sortedOptNames(opts []Opt16) []string {
 
 var P16 = core.Register(core.Prop[Case16]{
 	ID: "C16",
-	Rule: "each case draws a clause and its data: no-options (canonicalizer.New(), url.NewParser(), WhatWg vs the package functions, incl. the empty base string); remove (any subset of remove-user-info / remove-port / remove-fragment vs the reference model's parse followed by the standard's setter steps, cross-checked with the real setters); sort (SortKeys / SortParameter / NoSort vs the sorted decoded list of the default parser's result); default-scheme (unaffected / parsed as scheme://input exactly when the reference model fails in the no-scheme state / still failing); neutral (1..4 of 14 parser options with generated encode sets and added schemes: if no option's trigger is present in the input text the result equals the default parser's); collapse-effect (no empty non-final segment in special paths, non-special untouched); encode-set-effect (a replaced set governs exactly its component and scheme class); skip-equals ('=' dropped exactly for empty values); special-scheme-effect (an added scheme parses like http with its own default port); " +
+	Rule: "each case draws a clause and its data: no-options (canonicalizer.New(), url.NewParser(), WhatWg vs the package functions, incl. the empty base string); remove (any subset of remove-user-info / remove-port / remove-fragment vs the reference model's parse followed by the standard's setter steps, cross-checked with the real setters); sort (SortKeys / SortParameter / NoSort vs the sorted decoded list of the default parser's result); default-scheme (unaffected / parsed as scheme://input exactly when the reference model fails in the no-scheme state / still failing); neutral (1..4 of 14 parser options with generated encode sets and added schemes: if no option's trigger is present in the input text the result equals the default parser's); collapse-effect (no empty non-final segment in special paths, non-special untouched); encode-set-effect (a replaced set governs exactly its component and scheme class); canon-combo (any subset of the five canonicalizer options together vs the default parser's result with the default-scheme rule, the real setters and the sorted decoded list); skip-equals ('=' dropped exactly for empty values); special-scheme-effect (an added scheme parses like http with its own default port); " +
 		"non-trivial = the clause's option actually applies to the input (its trigger / target is present), or at least 2 options combined with all triggers absent on a parsing input; distinct by hash of the case",
 	Gen:   Gen16,
 	Check: Check16,
